@@ -31,6 +31,10 @@ CLAIMED = {
   "invariant on every initialization-segment response of the simulated players: box-by-box diff against the oracle's own scan of the stored file; only permitted differences are appended pssh boxes (PlayReady/ClearKey when the location set includes moov, carrying the track KID) and removal of mvex/mehd in live mode; every subset of DRM systems x locations is drawn by the swarm, under PYTHONHASHSEED 0..3, with interleaved clients and restarts",
   "vehicle property: sampled option space; the stored init segment is everything before the first moof",
   TECH + "independent box diff as response invariant"),
+ "C15": ("exploration",
+  "intruder actors holding the credentials of a lesser role (anonymous, guest JWT from /api/refresh/access, user, media-vs-other-users) harvest every CSRF token, cookie and JWT that role can legitimately obtain and fire well-formed mutation recipes for every state-changing handler plus a generic sweep over the routing table discovered at run time x {GET,HEAD,POST,PUT,DELETE}; a route-agnostic state oracle compares the committed content of every table (Token excluded) and the blob directory before and after every delivered request and checks each difference against the documented role policy; a CSRF probe (authorised client) submits fresh, reused, cross-service, cross-cookie, tampered and salt-swapped tokens on operations with unique visible effects under duplicated requests, lost responses, clock jumps past the 20-minute row lifetime and server restarts; legitimate manager traffic is interleaved",
+  "sampling; requests atomic (the check-then-insert race inside CsrfProtection.check is not explored); cookie-session login runs on a shim of Flask-Login, JWT paths on the real library",
+  TECH + "state-diff oracle attributing every durable change to one request"),
 }
 
 PENDING_REASON = "check not built yet in this session (planned, see DESIGN.md build order); not claimed until its simulation exists"
